@@ -80,6 +80,12 @@ class SymSeq:
         from .loops import cut_iterator
 
         if self.cut is None:
+            import sys
+
+            from .loops import try_append_loop
+
+            if try_append_loop(self, sys._getframe(1)):
+                return iter(())
             raise Unsupported("for-loop over a symbolic sequence without a loop cut (%s)" % self.name)
         return cut_iterator(self)
 
